@@ -95,4 +95,92 @@ def c05(c):
                     "recorded from the real code and checked by TLC; distinct = distinct messages")
 
 
-CHECKS = {"C01": c01, "C02": c02, "C03": c03, "C04": c04, "C05": c05}
+# --------------------------------------------------------------------------- C12 / C13 / C14
+def vsign_graph(c, name, what, cfgs):
+    """M+G on MC_VSign for each cfg (flip styles): model-check and replay the emitted state graph."""
+    for cfg in cfgs:
+        d = vlib.workdir(c.prop, "gen_" + cfg)
+        path = os.path.join(d, "graph.ndjson")
+        with open(path, "w") as sink:
+            c.mc("MC_VSign", "MC_VSign_%s.cfg" % cfg, workers=10, timeout=3000, gen_tag="GEN", gen_sink=sink, coverage=False)
+        c.replay_vectors(name, path, what + " [" + cfg + "]")
+        os.remove(path)
+
+
+def vsign_key(prefix):
+    def key(ev, ctx):
+        # canonical key of a rejected event: the message and the observed reply/state (not the whole history)
+        import json
+        return "%s:%s" % (prefix, json.dumps({"m": ev.get("m"), "r": ev.get("r"), "st": (ev.get("obs") or {}).get("st") if isinstance(ev.get("obs"), dict) else None}, sort_keys=True)[:400])
+    return key
+
+
+def c12(c):
+    cfgs = ["thorough", "thorough_auto"] if c.tier == "thorough" else ["quick", "quick_auto"]
+    vsign_graph(c, "C12", "every transition of the model's state graph delivered to a real VirtualSign under catch_unwind", cfgs)
+    shards = 16 if c.tier == "thorough" else 8
+    files, n, out = vlib.record("C12", c.tier, c.seed, shards)
+    c.details["recorder"] = out.strip().splitlines()[0][:500]
+    c.validate("Trace_Monitor", "Trace_Monitor.cfg", files, ["record", "C12"], procs=PROCS, timeout=3000, key_fn=vsign_key("C12"))
+    c.assumptions += ["a panic inside VirtualSign::process_message / VirtualSignBus::process_message is caught and recorded as reply kind 'Panic'; "
+                      "the monitor rejects it", "harness is built with debug assertions and overflow checks on, like the repository's test profile",
+                      "the 65536+5-chunk history (16-bit counter wrap) is only run in the thorough tier"]
+    return c.finish("model_checking",
+                    "M: VirtualSign!Step is total on every reachable model state (TLC evaluates every alphabet message in every state); G: each of those "
+                    "transitions is delivered to a real sign; V: long random walks over the wide alphabet (every kind, own/foreign address, chunks of every "
+                    "length, arbitrary configuration blocks, counts below/equal/above) on single signs and buses of 1..4 signs, plus directed lost/short/"
+                    "extra/duplicated-chunk and wrong-count transfers for all 11 sign types, validated by the reference-free monitor "
+                    "(no panic; a count announcement to a receiving sign ends in received/failed); distinct = delivered messages")
+
+
+def c13(c):
+    cfgs = ["thorough", "thorough_auto"] if c.tier == "thorough" else ["quick", "quick_auto"]
+    vsign_graph(c, "C13", "model state graph {path, projection, every alphabet edge} replayed into a real VirtualSign", cfgs)
+    shards = 16 if c.tier == "thorough" else 8
+    files, n, out = vlib.record("C13", c.tier, c.seed, shards)
+    c.details["recorder"] = out.strip().splitlines()[0][:500]
+    c.validate("Trace_VSign", "Trace_VSign.cfg", files, ["record", "C13"], procs=PROCS, timeout=3000, key_fn=vsign_key("C13"))
+    c.assumptions += ["model bounds: buffered bytes, stored pages and chunk counter bounded per cfg (quick: 32 bytes / 1 page / 2; thorough: 48 / 2 / 4)",
+                      "implementation-side BFS bounds: at most 3 (quick) / 4 (thorough) data chunks per transfer on a path, 1 / 2 stored pages",
+                      "observation through state(), sign_type(), pages() and the replies only; pending bytes, counter, width, height are inferred by TLC"]
+    return c.finish("model_checking",
+                    "M: invariants (stored pages complete, buffer only while receiving, counter zero outside transfers) and the documented per-step "
+                    "behaviour on every reachable state of the bounded model, both flip styles; G: one implementation test per model transition; "
+                    "V: breadth-first search over the real implementation's own Hash/Eq state with every alphabet message probed at every node, plus "
+                    "random walks and directed transfers on real sign sizes, every event validated by TLC against VirtualSign!Step; "
+                    "distinct = model transitions + implementation transitions")
+
+
+def c14(c):
+    d = vlib.workdir(c.prop, "gen_bus")
+    path = os.path.join(d, "graph.ndjson")
+    with open(path, "w") as sink:
+        c.mc("MC_Bus", "MC_Bus_%s.cfg" % c.tier, workers=10, timeout=3000, gen_tag="GEN", gen_sink=sink, coverage=False)
+    c.replay_vectors("C14", path, "every state of the 2-sign model reached on a real VirtualSignBus; C14 relations checked for every alphabet message")
+    os.remove(path)
+    # 3 and 4 signs: random simulation of the model (invariants Isolation/Inv on every visited state)
+    sims = [("sim3", "num=300" if c.tier == "quick" else "num=5000", 60)]
+    if c.tier == "thorough":
+        sims.append(("sim4", "num=3000", 60))
+    for cfg, num, depth in sims:
+        r = vlib.run_mc(c.prop, "MC_Bus", "MC_Bus_%s.cfg" % cfg, "mc", workers=4, timeout=600, coverage=False, simulate=(num, depth))
+        log("[M] MC_Bus/%s simulate %s depth %d: ok=%s, %.1fs" % (cfg, num, depth, r["ok"], r["wall"]))
+        if r["rc"] not in (0, 124) or "Error:" in r["tail"]:
+            log(r["tail"][-2000:])
+            raise vlib.ToolError("simulation of MC_Bus/%s failed" % cfg)
+        c.details.setdefault("model_runs", []).append({"module": "MC_Bus", "cfg": cfg, "mode": "simulate " + num, "depth": depth})
+    shards = 16 if c.tier == "thorough" else 8
+    files, n, out = vlib.record("C14", c.tier, c.seed, shards)
+    c.details["recorder"] = out.strip().splitlines()[0][:500]
+    c.validate("Trace_Monitor", "Trace_Monitor.cfg", files, ["record", "C14"], procs=PROCS, timeout=3000, key_fn=vsign_key("C14"))
+    c.assumptions += ["populations of 1..4 signs with distinct addresses (random and boundary addresses), mixed flip styles",
+                      "the monitor is reference-free: it compares the bus's reply and per-sign projections with what a solo clone of each sign did"]
+    return c.finish("model_checking",
+                    "M: AddressedIsolation and UnaddressedOnlyReceiving for every alphabet message in every reachable state of the exhaustive 2-sign model "
+                    "(both signs can be mid-transfer at once) and in simulated 3- and 4-sign behaviours; G: the model's witness paths drive a real "
+                    "VirtualSignBus into every model state, where every alphabet message is applied to the bus and to solo clones of its signs and the "
+                    "C14 relations are checked on the observations; V: random interleavings on 1..4 real signs validated by the reference-free C14 "
+                    "monitor in TLC (Trace_Monitor!Isolation); conformance of the values with the state machine is C13's business; distinct = bus transitions")
+
+
+CHECKS = {"C12": c12, "C13": c13, "C14": c14, "C01": c01, "C02": c02, "C03": c03, "C04": c04, "C05": c05}
